@@ -89,6 +89,25 @@ def gen_ops(ctx):
                 elif c in "xy": ms.append("%s %d" % (c, r.range(-w - 2, w + 2)))
                 else: ms.append(c)
             ops.append("mv %s %d %d %s" % (vw, x0, y0, " ".join(ms)))
+    # --- large views: random multi-row jumps of the 1-D iterator (and a locator move) far from the origin
+    BIG = {"v": (1000, 1000), "g8": (700, 700), "rgb8": (400, 400), "pl16": (200, 200), "b1": (1000, 1000), "b6": (300, 300)}
+    for kind, (W, H) in BIG.items():
+        for _ in range(20000 if th else 250):
+            vw, w, h = view_words(r, kind, W, H, r.range(0, 2), pad=r.range(0, 3))
+            size = w * h
+            if size <= 0: continue
+            i = r.range(0, size); n = r.range(-i, size - i); m = r.range(-(i + n), size - (i + n))
+            ops.append("ra %s %d %d %d %d" % (vw, i, n, n, m))
+            if r.chance(1, 4):      # locator moves between random positions of [0,w]x[0,h] (every intermediate stays inside the buffer)
+                cx, cy = r.range(0, w - 1), r.range(0, h); ms = []
+                x0, y0 = cx, cy
+                for c in ("p", "m", "x", "y", "p"):
+                    tx, ty = r.range(0, w), r.range(0, h)
+                    if c == "p": ms.append("p %d %d" % (tx - cx, ty - cy)); cx, cy = tx, ty
+                    elif c == "m": ms.append("m %d %d" % (cx - tx, cy - ty)); cx, cy = tx, ty
+                    elif c == "x": ms.append("x %d" % (tx - cx)); cx = tx
+                    else: ms.append("y %d" % (ty - cy)); cy = ty
+                ops.append("mv %s %d %d %s" % (vw, x0, y0, " ".join(ms)))
     # --- bit ranges in a 2^33-bit reservation: carry at every bit offset, both signs, up to the narrowing guard
     I31 = 2 ** 31
     for b in BITS.values():
